@@ -530,8 +530,14 @@ Qed.
 Lemma parse_misc_wf s c : R s -> P c -> okP (parse_misc text C ev s c) PS.
 Proof. apply parse_misc_loop_wf. Qed.
 
-Lemma parse_attribute_wf s : R s -> okP (parse_attribute text s) R.
+Lemma parse_attribute_wf s : R s -> okP (parse_attribute text s) (fun p => R (snd p)).
 Proof. intros Hr. unfold parse_attribute. go. Qed.
+
+Lemma parse_pseudo_attribute_wf name s : R s -> okP (parse_pseudo_attribute text name s) R.
+Proof.
+  intros Hr. unfold parse_pseudo_attribute.
+  repeat ok_step ltac:(first [ apply parse_attribute_wf; solve [fin] | sspec ]); fin.
+Qed.
 
 Lemma decl_consume_spaces_wf s : R s -> okP (decl_consume_spaces text s) R.
 Proof. intros Hr. unfold decl_consume_spaces. go. Qed.
@@ -539,12 +545,22 @@ Proof. intros Hr. unfold decl_consume_spaces. go. Qed.
 Lemma parse_declaration_wf s : R s -> okP (parse_declaration text s) R.
 Proof.
   intros Hr. unfold parse_declaration.
-  repeat ok_step ltac:(first [ apply parse_attribute_wf; solve [fin]
+  repeat ok_step ltac:(first [ apply parse_pseudo_attribute_wf; solve [fin]
                              | apply decl_consume_spaces_wf; solve [fin] | sspec ]); fin.
 Qed.
 
+Lemma parse_external_literal_wf s : R s -> okP (parse_external_literal text s) R.
+Proof. intros Hr. unfold parse_external_literal. go. Qed.
+
+Lemma parse_pubid_literal_wf s : R s -> okP (parse_pubid_literal text s) R.
+Proof. intros Hr. unfold parse_pubid_literal. go. Qed.
+
 Lemma parse_external_id_wf s : R s -> okP (parse_external_id text s) (fun p => R (snd p)).
-Proof. intros Hr. unfold parse_external_id. go. Qed.
+Proof.
+  intros Hr. unfold parse_external_id.
+  repeat ok_step ltac:(first [ apply parse_external_literal_wf; solve [fin]
+                             | apply parse_pubid_literal_wf; solve [fin] | sspec ]); fin.
+Qed.
 
 Lemma parse_entity_def_wf s is_ge : R s ->
   okP (parse_entity_def text s is_ge)
